@@ -99,7 +99,7 @@ pub fn subs() -> Vec<Box<dyn Sub>> {
         rule: "boot informations made of spec-conformant tags from the independent encoder (all 21 non-end kinds, every field byte a position-dependent non-zero marker, multiplicity and order random, 0..=12 tags, boot-services tag in ~40% of the cases with an EFI map, framebuffer type byte uniform over all 256 values); enumerated: each kind alone / duplicated / every ordered pair with a repeated kind, all 256 framebuffer type bytes. Oracle: the full transcript (walk, every item's typed fields, all 22 getters, module iterator) equals the reference model's decode; any panic is a mismatch. Non-trivial = >=4 tags with a duplicated kind; distinct by region hash",
         profiles: Profiles::Both,
         quick: 40000,
-        thorough: 600000,
+        thorough: 3000000,
         strategy,
         enumerate: Some(enumerate),
         enum_exhaustive: false,
